@@ -1,3 +1,183 @@
-import Driver.Common
-/- stub: model driver for C08 not built yet -/
-def main : IO Unit := Driver.lineLoop (fun _ => "unimplemented")
+import Driver.GenVL
+import ThriftVerif.Gen.Rpc
+/- model driver for C08: ops CALL / INJ / RECV over `Gen.Rpc` (docs/C08.md) -/
+namespace Driver.C08
+open Gen Gen.Rpc Driver.GenVL
+
+/-- service table of one unit: svc index ↦ (base index, own methods) -/
+abbrev SvcTab := List (Nat × (Option Nat × List Method))
+
+structure St where
+  progs : Progs := []
+  svcs : List (String × SvcTab) := []
+
+def St.tab (s : St) (u : String) : SvcTab := ((s.svcs.find? (·.1 == u)).map (·.2)).getD []
+
+def buildSvc (tab : SvcTab) : Nat → Nat → Option Service
+  | 0, _ => none
+  | fuel+1, i =>
+    match (tab.find? (·.1 == i)).map (·.2) with
+    | none => none
+    | some (none, ms) => some (.root ms)
+    | some (some b, ms) => (buildSvc tab fuel b).map (.ext ms)
+
+partial def canonW : Wire.WVal → Wire.WVal
+  | .struct fs => .struct (fs.map fun (i, v) => (i, canonW v))
+  | .list t xs => .list t (xs.map canonW)
+  | .set t xs => .set t (xs.map canonW)
+  | .map k v kvs =>
+      let es := kvs.map fun (a, b) => (canonW a, canonW b)
+      let keyed := es.map fun (a, b) => (VL.hexEncode (Wire.encW a), (a, b))
+      let sorted := keyed.foldr (fun x acc => ins x acc) []
+      .map k v (sorted.map (·.2))
+  | w => w
+where ins (x : String × (Wire.WVal × Wire.WVal)) : List (String × (Wire.WVal × Wire.WVal)) → List (String × (Wire.WVal × Wire.WVal))
+  | [] => [x]
+  | y :: r => if x.1 ≤ y.1 then x :: y :: r else y :: ins x r
+
+/-- envelope kept, body struct re-encoded with map entries sorted by encoded key (refcodec.Canon) -/
+def canonMsg (bs : Bytes) : String :=
+  if bs.isEmpty then "-" else
+  match decMsg false bs with
+  | some (name, ty, seq, body) =>
+    (match Wire.decW (body.length + 1) .struct body with
+     | some (w, []) => VL.hexEncode (encMsg name ty seq ++ Wire.encW (canonW w))
+     | _ => "raw:" ++ VL.hexEncode bs)
+  | none => "raw:" ++ VL.hexEncode bs
+
+def parseMethods : Nat → P (List Method)
+  | 0, r => some ([], r)
+  | n+1, nm :: a :: res :: ow :: vd :: nt :: r => do
+      let name ← VL.hexDecode nm
+      let ai ← a.toNat?
+      let ri := (res.toNat?).getD 0
+      let k ← nt.toNat?
+      let (ms, r) ← parseMethods n r
+      some ({ name := name, args := ai, result := ri, oneway := ow == "1", void := vd == "1", nthrows := k } :: ms, r)
+  | _, _ => none
+
+def parseAnswer : P Answer
+  | "ok" :: r => do let (v, r) ← parseVal r; some (.ok v, r)
+  | "exc" :: i :: r => do let k ← i.toNat?; let (v, r) ← parseVal r; some (.exc k v, r)
+  | "err" :: m :: r => do let b ← VL.hexDecode m; some (.err b, r)
+  | _ => none
+
+def seqPat (s : String) : Option Nat := (s.toInt?).map (pat 32)
+
+def findMethod (svc : Service) (name : Bytes) : Option Method := svc.methods.find? (·.name == name)
+
+def throwTy (P : Prog) (m : Method) (i : Nat) : Ty :=
+  match P.struct? m.result with
+  | some sd => ((sd.fields.drop ((if m.void then 0 else 1) + i)).head?.map (·.ty)).getD (.struct 0)
+  | none => .struct 0
+
+def showOutcome (P : Prog) (m : Method) : Outcome → String
+  | .ok v => if m.void then "ok n" else "ok " ++ showVal P ((successTy P m).getD .bool) v
+  | .exc i v => s!"exc {i} " ++ showVal P (throwTy P m i) v
+  | .app ty msg => s!"app {ty} " ++ VL.hexEncode msg
+  | .err => "err"
+
+def showLog (P : Prog) (svc : Service) (log : List (Bytes × List GoVal)) : String :=
+  match log with
+  | [] => "H-"
+  | _ => " ".intercalate (log.map fun (n, a) =>
+      match findMethod svc n with
+      | some m => "H " ++ VL.hexEncode n ++ " " ++ showVal P (.struct m.args) (.strct a)
+      | none => "H?")
+
+def showRest : Option Bytes → String
+  | some b => toString b.length
+  | none => "*"
+
+def showObs (P : Prog) (svc : Service) (m : Method) (o : CallObs) : String :=
+  let req := match o.req with | some b => canonMsg b | none => "-"
+  let (lg, rep) := match o.proc with
+    | some po => (showLog P svc po.log, canonMsg po.reply)
+    | none => ("H-", "-")
+  req ++ " " ++ lg ++ " " ++ rep ++ " " ++ showOutcome P m o.outcome
+
+/-- parse `<n>` call specs: method name, args record, scripted answer -/
+def parseCalls (svc : Service) : Nat → P (List (Method × List GoVal × Answer))
+  | 0, r => some ([], r)
+  | n+1, nm :: r => do
+      let name ← VL.hexDecode nm
+      let m ← findMethod svc name
+      let (av, r) ← parseVal r
+      let a ← (match av with | .strct fs => some fs | _ => none)
+      let (ans, r) ← parseAnswer r
+      let (cs, r) ← parseCalls svc n r
+      some ((m, a, ans) :: cs, r)
+  | _, _ => none
+
+def runShow (P : Prog) (svc : Service) : List (Method × List GoVal × Answer) → Conn → List String → Conn × List String
+  | [], c, acc => (c, acc.reverse)
+  | (m, a, ans) :: r, c, acc =>
+    let (c', o) := call P svc m (fun _ _ => ans) a c
+    runShow P svc r c' (showObs P svc m o :: acc)
+
+def withSvc (s : St) (key : String) (f : Prog → Service → String) : String :=
+  match splitKey key with
+  | some (u, i) =>
+    match s.progs.get u, buildSvc (s.tab u) 64 i with
+    | some P, some svc => f P svc
+    | _, _ => "bad-op"
+  | none => "bad-op"
+
+def step (s : St) (line : String) : St × String :=
+  let toks := VL.toks line
+  match schemaLine s.progs toks with
+  | some (ps, out) => ({ s with progs := ps }, out)
+  | none =>
+    match toks with
+    | "V" :: u :: si :: base :: n :: rest =>
+      (match si.toNat?, n.toNat?, s.progs.get u with
+       | some i, some k, some P =>
+         (match parseMethods k rest with
+          | some (ms, []) =>
+            if ms.all (methodOkB P) then
+              let tab := s.tab u ++ [(i, (base.toNat?, ms))]
+              ({ s with svcs := (u, tab) :: s.svcs.filter (·.1 != u) }, "ok")
+            else (s, "bad-service")
+          | _ => (s, "bad-op"))
+       | _, _, _ => (s, "bad-op"))
+    | "CALL" :: key :: _ctor :: seq0 :: n :: rest =>
+      (s, withSvc s key fun P svc =>
+        match seqPat seq0, n.toNat? with
+        | some q, some k =>
+          (match parseCalls svc k rest with
+           | some (cs, []) =>
+             let (c, outs) := runShow P svc cs (Conn.fresh q) []
+             " | ".intercalate outs ++ " ; " ++ showRest c.c2s ++ " " ++ showRest c.s2c
+           | _ => "bad-op")
+        | _, _ => "bad-op")
+    | "INJ" :: key :: hex :: rest =>
+      (s, withSvc s key fun P svc =>
+        match VL.hexDecode hex, parseAnswer rest with
+        | some bs, some (ans, []) =>
+          let po := process P svc (fun _ _ => ans) bs
+          VL.boolStr po.success ++ " " ++ VL.boolStr po.failed ++ " " ++ showLog P svc po.log ++ " " ++
+            canonMsg po.reply ++ " " ++ showRest po.rest
+        | _, _ => "bad-op")
+    | "RECV" :: key :: _ctor :: seq0 :: nm :: rest =>
+      (s, withSvc s key fun P svc =>
+        match seqPat seq0, VL.hexDecode nm with
+        | some q, some name =>
+          (match findMethod svc name, parseVal rest with
+           | some m, some (.strct a, [hex]) =>
+             (match VL.hexDecode hex with
+              | some reply =>
+                (match clientSend P q m a with
+                 | (seq', .ok req) =>
+                   if m.oneway then canonMsg req ++ " ok n " ++ toString reply.length
+                   else
+                     let (o, rest) := clientRecv P seq' m reply
+                     canonMsg req ++ " " ++ showOutcome P m o ++ " " ++ showRest rest
+                 | _ => "- err *")
+              | none => "bad-op")
+           | _, _ => "bad-op")
+        | _, _ => "bad-op")
+    | _ => (s, "bad-op")
+
+end Driver.C08
+
+def main : IO Unit := Driver.stateLoop ({} : Driver.C08.St) Driver.C08.step
